@@ -38,6 +38,15 @@ pub fn set_insn_budget(budget: Option<u64>) {
     set(budget.unwrap_or(u64::MAX));
 }
 
+/// The remaining budget (`None` = no budget set). Lets a helper function that runs a nested program
+/// save the outer run's budget and put it back afterwards.
+pub fn insn_budget() -> Option<u64> {
+    match get() {
+        u64::MAX => None,
+        b => Some(b),
+    }
+}
+
 /// Called once per interpreted instruction; returns `true` when the budget is exhausted.
 #[inline]
 pub(crate) fn tick() -> bool {
